@@ -216,6 +216,48 @@ Section Proofs.
   Proof. intros. apply disable_emit_projection. now apply comment_free_same_used. Qed.
 
   (* ------------------------------------------------------------------ *)
+  (* 3b. end to end: the raw stream under the disabling configuration    *)
+
+  (* show_error drops a call of a disabled code before anything else: the output only
+     depends on the calls of enabled codes *)
+  Lemma main_ignores_disabled : forall st f raw,
+    main st f raw = main st f (filter (fun d => st (d_code d)) raw).
+  Proof.
+    intros. rewrite !main_is_projection. unfold Suppress.main_spec. rewrite filter_filter.
+    f_equal. f_equal. apply filter_ext. intros d. unfold Suppress.live.
+    destruct (st (d_code d)); reflexivity.
+  Qed.
+
+  (* the hypothesis that the harness checks per program: restricted to the codes that stay
+     enabled, the checker makes the same show_error calls with and without the codes of S *)
+  Definition raw_indep (S : list N) (st : settings) (raw raw' : list diag) : Prop :=
+    filter (fun d => disable S st (d_code d)) raw' = filter (fun d => disable S st (d_code d)) raw.
+
+  Theorem disable_end_to_end : forall S st f raw raw',
+    raw_indep S st raw raw' ->
+    main (disable S st) f raw' = filter (not_in S) (main st f raw).
+  Proof.
+    intros S st f raw raw' H. rewrite (main_ignores_disabled (disable S st) f raw').
+    unfold raw_indep in H. rewrite H. rewrite <- main_ignores_disabled. apply disable_main_projection.
+  Qed.
+
+  Lemma comment_free_emit : forall st f U B raw, comment_free f -> emit st f U B raw = main st f raw.
+  Proof.
+    intros st f U B raw CF. unfold Suppress.emit, Suppress.main.
+    assert (E : forall (q : nat * line -> bool) k,
+              filter (fun il => has_any IGN (snd il) && q il) (enum_from k f) = []).
+    { intros q. induction f as [|l r IHr]; intros k; [reflexivity|]. cbn [enum_from filter snd].
+      rewrite (CF l) by now left. cbn [andb]. apply IHr. intros x IN. apply CF. now right. }
+    unfold Suppress.tail_unused, Suppress.tail_bare, unused_lines, bare_lines. rewrite !E. cbn [flat_map].
+    destruct (Suppress.file_level IGN name f None); now rewrite !app_nil_r.
+  Qed.
+
+  Corollary disable_end_to_end_comment_free : forall S st f U B raw raw',
+    comment_free f -> raw_indep S st raw raw' ->
+    emit (disable S st) f U B raw' = filter (not_in S) (emit st f U B raw).
+  Proof. intros. rewrite !comment_free_emit by assumption. now apply disable_end_to_end. Qed.
+
+  (* ------------------------------------------------------------------ *)
   (* 4. which comment lines are credited (used_ignores)                  *)
 
   Definition fl_credit (st : settings) (f : file) (raw : list diag) : list nat :=
